@@ -91,7 +91,7 @@ pub fn pieces_bytes(v: &Value) -> Vec<u8> {
 
 /// If `data` is exactly one COMMAND frame whose body is a READY command, re-encode its
 /// properties in canonical order (Socket-Type, Identity, others by name); HashMap order varies.
-fn canonical_ready(data: &[u8]) -> Vec<u8> {
+pub fn canonical_ready(data: &[u8]) -> Vec<u8> {
   if data.len() < 2 || data[0] & 4 == 0 {
     return data.to_vec();
   }
